@@ -21,6 +21,10 @@ pub use data_structures::*;
 #[cfg(test)]
 mod tests;
 mod utils;
+#[cfg(feature = "verif-hooks")]
+pub(crate) mod verif_hooks_utils {
+    pub(crate) use super::utils::{flat_to_matrix_column_major, tensor_prime};
+}
 /// String of bytes used to seed the randomness during the setup function.
 /// Note that the latter should never be used in production environments.
 pub const PROTOCOL_NAME: &'static [u8] = b"Hyrax protocol";
